@@ -137,7 +137,7 @@ func GenConfig(t *rapid.T, tier string, o GenOpts) Config {
 	}
 	keys := o.Keys
 	if keys == nil {
-		keys = []string{KLK, KLK, KLK, KInt, KInt64, KUint, KUint64, KString, KBytes, KStruct, KInt32, KUint16}
+		keys = []string{KLK, KLK, KLK, KInt, KInt64, KUint, KUint64, KString, KBytes, KStruct, KInt32, KUint16, KNamed}
 	}
 	vals := o.Vals
 	if vals == nil {
